@@ -105,6 +105,22 @@ CLAIMED = {
             "text": "All sequences of up to 2 (thorough 4) calls over {1,2,3,5,16}, each in a fresh process, with active_value compared after every call and after a following library call; every "
                     "--parallel=true option combination of both demos sampled at the moment the algorithm is announced.",
             "note": "observation = tbb::global_control::active_value; distinct worker thread counts are recorded but not judged (oneTBB lets active workers leave lazily)"},
+    "C07": {"level": "exploration", "design_ref": "DESIGN.md section 3, C07",
+            "technique": "bounded exhaustive input/history/schedule enumeration re-run under AddressSanitizer + UBSan + LeakSanitizer (sanitizer as the oracle), with crash attribution to the exact case",
+            "text": "The enumerations of the other properties (small universes) plus a menu of large instances are executed on sanitizer builds of the same harnesses; every returned descriptor is "
+                    "dereferenced through the caller's map after return; leaks are checked after every work unit; thorough adds valgrind for uninitialised reads.",
+            "note": "sanitizers detect what they document; the real libtbb is uninstrumented; inputs restricted to the valid domain"},
+    "C08": {"level": "exploration", "design_ref": "DESIGN.md section 3, C08",
+            "technique": "bounded exhaustive enumeration of metamorphic images (all renumberings / insertion orders / structural transformations of every small graph) and a completely enumerated menu of "
+                         "large instances, against exact expected values and a second independent (Horton) reference",
+            "text": "Every image of every base graph of the small universe under the complete transformation set must make every exact variant and backend (sequential, real oneTBB, MPI on the model) "
+                    "return exactly the expected value; on large instances all variants and images agree and match an independent Horton-collection optimum, and every basis is validated structurally.",
+            "note": "Horton reference cross-validated against the all-cycles reference on every run; large part is a fixed finite menu"},
+    "C09": {"level": "exploration", "design_ref": "DESIGN.md section 3, C09",
+            "technique": "bounded exhaustive input-space enumeration over decimal weight alphabets with an exact 128-bit fixed-point oracle",
+            "text": "Every weighting over {0.1,0.2,0.3}(+0.7) of every graph of the bound (including all labelled hexagons, where direction-dependent rounding first matters) for all six exact variants; "
+                    "validity, returned-value and 1e-9-optimality are judged in exact arithmetic. One known finding (isometric variant) is listed in known_findings.txt.",
+            "note": "the property's domain is a continuum; only the stated decimal alphabets are covered"},
 }
 for k in CLAIMED:
     ENGINES[0]["serves_properties"].append(k)
